@@ -146,8 +146,24 @@ static std::string doReader(const std::vector<std::string>& a) {
 
 static std::string gTmpDir = ".";
 
+// external DTD subset / external entities: every external id resolves to the request's <extspec> bytes, delivered
+// from memory (one-shot requests) or through the same chunking as the document entity
+#include <xercesc/sax/EntityResolver.hpp>
+class ExtResolver : public EntityResolver {
+public:
+    std::vector<unsigned char> fData;
+    ChunkSpec fChunks;
+    bool fChunked = false;
+    InputSource* resolveEntity(const XMLCh* const, const XMLCh* const) {
+        static const XMLByte none[1] = {0};
+        if (fChunked) return new ChunkSource(fData, fChunks, "ext");
+        return new MemBufInputSource(fData.empty() ? none : fData.data(), fData.size(), "ext", false);
+    }
+};
+
 static std::string doDoc(const std::vector<std::string>& a) {
-    // doc <cfg> <src> <chunks> <docspec>      cfg: scanner letter I/W/D/S, ns 0/1, optional 'f' = full dump
+    // doc <cfg> <src> <chunks> <docspec> [<extspec>]   cfg: scanner letter I/W/D/S, ns 0/1, optional 'f' = full dump;
+    // with <extspec>: external DTD loading on, every external id is served these bytes (chunked like the document)
     const std::string& cfg = a[1];
     std::vector<unsigned char> data = expandDoc(a[4]);
     std::unique_ptr<SAX2XMLReader> p(XMLReaderFactory::createXMLReader());
@@ -158,7 +174,15 @@ static std::string doDoc(const std::vector<std::string>& a) {
     p->setProperty(XMLUni::fgXercesScannerName, (void*)sc);
     p->setFeature(XMLUni::fgSAX2CoreNameSpaces, cfg.size() > 1 && cfg[1] == '1');
     p->setFeature(XMLUni::fgSAX2CoreValidation, false);
-    p->setFeature(XMLUni::fgXercesLoadExternalDTD, false);
+    ExtResolver res;
+    if (a.size() >= 6) {
+        res.fData = expandDoc(a[5]);
+        res.fChunks = parseChunks(a[3]);
+        res.fChunked = (a[2] == "chunk");
+        p->setFeature(XMLUni::fgXercesLoadExternalDTD, true);
+        p->setEntityResolver(&res);
+    } else
+        p->setFeature(XMLUni::fgXercesLoadExternalDTD, false);
     bool full = cfg.find('f') != std::string::npos;
     DumpHandler h;
     p->setContentHandler(&h);
@@ -232,7 +256,7 @@ int main(int argc, char** argv) {
         std::vector<std::string> a = splitWs(line);
         std::string r = "bad-request";
         if (a.size() >= 6 && a[0] == "rd") r = doReader(a);
-        else if (a.size() == 5 && a[0] == "doc") r = doDoc(a);
+        else if ((a.size() == 5 || a.size() == 6) && a[0] == "doc") r = doDoc(a);
         std::cout << r << "\n";
     }
     std::cout.flush();
